@@ -246,3 +246,30 @@ Proof.
   pose proof (process_query_answer_total known payload Hb) as H.
   destruct (process_query_answer known payload); cbn in *; auto.
 Qed.
+
+(** * LiteapiRequestDecoder *)
+Lemma lookup_request_in tbl tag ty :
+  lookup_request tbl tag = Some ty -> exists a b c, In (a, b, ty, c) tbl.
+Proof.
+  induction tbl as [| [[[t u] ty'] n] tl IH]; cbn; [discriminate|].
+  destruct (N.eqb t tag).
+  - intros H. injection H as <-. exists t, u, n. left. reflexivity.
+  - intros H. destruct (IH H) as (a & b & c & Hin). exists a, b, c. right. exact Hin.
+Qed.
+
+Theorem request_decode_total B rate tbl fuel b :
+  (forall a x ty c, In (a, x, ty, c) tbl -> sok B rate fuel (GNamed ty) = true) ->
+  np (request_decode B tbl fuel b).
+Proof.
+  intros Hok. unfold request_decode.
+  destruct (short 4 b) eqn:E; [exact I|].
+  apply short_false_le in E.
+  apply np_bind; [apply np_slice_to; lia|]. intros h.
+  unfold slice_from. rewrite short_spec.
+  destruct (Nat.ltb_spec (length b) 4) as [Hlt|Hge]; [lia|]. cbn [bind].
+  destruct (lookup_request tbl (le_num h)) as [ty|] eqn:L; [|exact I].
+  destruct (lookup_request_in _ _ _ L) as (a & x & c & Hin).
+  pose proof (tl_decode_total B rate fuel (GNamed ty) (Hok _ _ _ _ Hin) (skipn 4 b)) as Hnp.
+  destruct (fst (tl_unmarshal B fuel (GNamed ty) (skipn 4 b))); cbn; auto.
+  eapply Hnp. reflexivity.
+Qed.
